@@ -77,7 +77,7 @@ def run(chk, mod, lib):
         return
     for fn in ('is_block_def', 'is_data_line', 'is_comment_line'):
         chk.functions.add('SLHAea::Line::' + fn)
-        for ntok in range(0, 4):
+        for ntok in range(0, 4 if chk.tier == 'quick' else 6):
             for ncol in sorted(set((0, ntok))):
                 st = X.State()
                 ex = executor(mod, RealDom(), extra_stubs=dict(S.STRING_MODEL_STUBS), fork_select=False)
